@@ -93,6 +93,61 @@ Definition binop_ir (op : binop) (c a b : N) : option ir :=
 
 Definition is_function (e : expr) : bool := match e with EFunction _ _ _ _ _ _ => true | _ => false end.
 
+(* open-recursion helpers, parameterised by the lowering of one statement / one expression *)
+Definition lower_list (stm : stmt -> N -> M (list ir)) (ss : list stmt) (ctx : N) : M (list ir) :=
+  cs <- mapM (fun s => stm s ctx) ss ;; ret (concat cs).
+
+(* the body of a function: the last statement, if it is an expression, is the returned value *)
+Definition lower_fbody (stm : stmt -> N -> M (list ir)) (exp : expr -> N -> M (list ir * N))
+           (body : list stmt) (ctx : N) : M (list ir) :=
+  match rev body with
+  | [] => ret []
+  | last :: init_rev =>
+      b <- lower_list stm (rev init_rev) ctx ;;
+      l <- match last with
+           | SStatementExpression value _ => r <- exp value ctx ;; ret (fst r ++ [IReturn (snd r)])
+           | s => stm s ctx
+           end ;;
+      ret (b ++ l)
+  end.
+
+(* expression_block: the last statement, if it is an expression, is assigned to `out` *)
+Definition lower_eblock (stm : stmt -> N -> M (list ir)) (exp : expr -> N -> M (list ir * N))
+           (out : N) (block : list stmt) (ctx : N) : M (list ir) :=
+  match rev block with
+  | SStatementExpression value _ :: rest_rev =>
+      ops <- lower_list stm (rev rest_rev) ctx ;;
+      r <- exp value ctx ;;
+      ret (ops ++ fst r ++ [IAssign out (snd r)])
+  | _ => lower_list stm block ctx
+  end.
+
+(* one branch of an if-expression (the `End`s are emitted after all branches) *)
+Definition lower_if_branch (stm : stmt -> N -> M (list ir)) (exp : expr -> N -> M (list ir * N))
+           (out : N) (ctx : N) (br : ifbranch) : M (list ir) :=
+  match br with
+  | IfBranch (Some cond) body _ =>
+      rc <- exp cond ctx ;;
+      blk <- lower_eblock stm exp out body ctx ;;
+      ret (fst rc ++ [IIf (snd rc)] ++ blk ++ [IElse])
+  | IfBranch None body _ =>
+      v <- fresh ;;
+      blk <- lower_eblock stm exp out body ctx ;;
+      ret ([IBool v true; IIf v] ++ blk)
+  end.
+
+(* one arm of a case-expression *)
+Definition lower_case_branch (stm : stmt -> N -> M (list ir)) (exp : expr -> N -> M (list ir * N))
+           (out tag value : N) (ctx : N) (br : casebranch) : M (list ir) :=
+  match br with
+  | CaseBranch pattern _ variable body _ =>
+      blk <- lower_eblock stm exp out body ctx ;;
+      exp_str <- fresh ;; cmp <- fresh ;;
+      ret ((match variable with Some v => [IDefine v; IAssign v value] | None => [] end)
+           ++ [IStr exp_str pattern; IEquals cmp exp_str tag; IIf cmp]
+           ++ blk ++ [IElse])
+  end.
+
 Section Lower.
 (* ctx = closest_loop label *)
 
@@ -101,17 +156,9 @@ Fixpoint expression (fuel : nat) (e : expr) (ctx : N) {struct fuel} : M (list ir
   | O => out_of_fuel
   | S f =>
     let expr' := expression f in
-    let stmts' := fun (ss : list stmt) (ctx : N) =>
-                    cs <- mapM (fun s => statement f s ctx) ss ;; ret (concat cs) in
-    (* expression_block *)
-    let eblock := fun (out : N) (block : list stmt) (ctx : N) =>
-      match rev block with
-      | SStatementExpression value _ :: rest_rev =>
-          ops <- stmts' (rev rest_rev) ctx ;;
-          r <- expr' value ctx ;;
-          ret (ops ++ fst r ++ [IAssign out (snd r)])
-      | _ => stmts' block ctx
-      end in
+    let stmts' := lower_list (statement f) in
+    let eblock := lower_eblock (statement f) (expression f) in
+    let fbody := lower_fbody (statement f) (expression f) in
     match e with
     | ERead v _ => dest <- fresh ;; ret ([ICopy dest v], dest)
     | EVariant _ variant value _ =>
@@ -147,30 +194,12 @@ Fixpoint expression (fuel : nat) (e : expr) (ctx : N) {struct fuel} : M (list ir
     | EUniOp Neg a _ => ra <- expr' a ctx ;; b <- fresh ;; ret (fst ra ++ [INeg b (snd ra)], b)
     | EIf branches _ =>
         out <- fresh ;;
-        code <- mapM (fun br =>
-                  match br with
-                  | IfBranch (Some cond) body _ =>
-                      rc <- expr' cond ctx ;;
-                      blk <- eblock out body ctx ;;
-                      ret (fst rc ++ [IIf (snd rc)] ++ blk ++ [IElse])
-                  | IfBranch None body _ =>
-                      v <- fresh ;;
-                      blk <- eblock out body ctx ;;
-                      ret ([IBool v true; IIf v] ++ blk)
-                  end) branches ;;
+        code <- mapM (lower_if_branch (statement f) (expression f) out ctx) branches ;;
         ret ([IDefine out] ++ concat code ++ map (fun _ => IEnd) branches, out)
     | ECase to_match branches fall_through _ =>
         rc <- expr' to_match ctx ;;
         tag <- fresh ;; value <- fresh ;; out <- fresh ;;
-        bcode <- mapM (fun br =>
-                   match br with
-                   | CaseBranch pattern _ variable body _ =>
-                       blk <- eblock out body ctx ;;
-                       exp_str <- fresh ;; cmp <- fresh ;;
-                       ret ((match variable with Some v => [IDefine v; IAssign v value] | None => [] end)
-                            ++ [IStr exp_str pattern; IEquals cmp exp_str tag; IIf cmp]
-                            ++ blk ++ [IElse])
-                   end) branches ;;
+        bcode <- mapM (lower_case_branch (statement f) (expression f) out tag value ctx) branches ;;
         ft <- eblock out (match fall_through with Some b => b | None => [] end) ctx ;;
         tag_index <- fresh ;; value_index <- fresh ;;
         ret (fst rc ++ [IDefine out; IInt tag_index 1; IIndex tag (snd rc) tag_index;
@@ -190,17 +219,8 @@ Fixpoint expression (fuel : nat) (e : expr) (ctx : N) {struct fuel} : M (list ir
     | EFunction _ params _ body _ _ =>
         fv <- fresh ;;
         let ps := map (fun p => snd (fst (fst p))) params in
-        match rev body with
-        | [] => ret ([IFunction fv ps] ++ [IEnd], fv)
-        | last :: init_rev =>
-            b <- stmts' (rev init_rev) ctx ;;
-            l <- match last with
-                 | SStatementExpression value _ =>
-                     r <- expr' value ctx ;; ret (fst r ++ [IReturn (snd r)])
-                 | s => statement f s ctx
-                 end ;;
-            ret ([IFunction fv ps] ++ b ++ l ++ [IEnd], fv)
-        end
+        bc <- fbody body ctx ;;
+        ret (IFunction fv ps :: bc ++ [IEnd], fv)
     | EFloat r _ => v <- fresh ;; ret ([IFloat v r], v)
     | EStr s _ => v <- fresh ;; ret ([IStr v s], v)
     | EBool b _ => v <- fresh ;; ret ([IBool v b], v)
@@ -214,8 +234,7 @@ with statement (fuel : nat) (s : stmt) (ctx : N) {struct fuel} : M (list ir) :=
   | O => out_of_fuel
   | S f =>
     let expr' := expression f in
-    let stmts' := fun (ss : list stmt) (ctx : N) =>
-                    cs <- mapM (fun s => statement f s ctx) ss ;; ret (concat cs) in
+    let stmts' := lower_list (statement f) in
     match s with
     | SAssignment op target value _ =>
         res <- fresh ;;
@@ -264,15 +283,18 @@ with definition (fuel : nat) (var : N) (value : expr) (ctx : N) {struct fuel} : 
   match fuel with
   | O => out_of_fuel
   | S f =>
-    if is_function value then
-      r <- expression f value ctx ;;
-      match fst r with
-      | IFunction _ args :: rest => ret (IFunction var args :: rest)
-      | _ => panic "intermediate.rs:definition unreachable"
-      end
-    else
-      r <- expression f value ctx ;;
-      ret ([IDefine var] ++ fst r ++ [IAssign var (snd r)])
+    match value with
+    | EFunction _ params _ body _ _ =>
+        (* the Rust code lowers the function expression and then replaces the name in its first
+           instruction (IFunction) by the defined variable: the temporary stays allocated, unused *)
+        _ <- fresh ;;
+        let ps := map (fun p => snd (fst (fst p))) params in
+        bc <- lower_fbody (statement f) (expression f) body ctx ;;
+        ret (IFunction var ps :: bc ++ [IEnd])
+    | _ =>
+        r <- expression f value ctx ;;
+        ret ([IDefine var] ++ fst r ++ [IAssign var (snd r)])
+    end
   end.
 
 End Lower.
